@@ -54,6 +54,15 @@ def plain(rng):
                                  T, np.array(res.py_get_result()), idx, rate, dt)
                 if bad:
                     return bad
+    # deterministic mode: the repeated assignment rule holds on every reported row
+    for it in range(4):
+        M, rate = build(Model, rng, True)
+        T = np.arange(0, 3, 0.25)
+        idx = M.get_species2index()
+        data = np.array(py_simulate_model(T, Model=M, stochastic=False, return_dataframe=False).py_get_result())
+        for m in range(len(T)):
+            if abs(data[m][idx['S']] - (data[m][idx['A']] + 2 * data[m][idx['B']])) > 1e-7:
+                return dict(reproduced=True, call='deterministic py_simulate_model with a repeated rule S = A + 2B', what='row %d' % m, observed=data[m].tolist(), expected='S == A + 2B')
     # non-uniform grid: the entry point leaves the delta clock at its default 0.01; an ODE rule must advance by rate x 0.01 per delta tick,
     # so X grows like rate x t however the time points fall between the ticks
     for it in range(4):
